@@ -166,6 +166,23 @@ def setter(S, target):
     except Exception as e:
         okf = False
     S.check_concrete(okf, "%s: a Python float is accepted by the setter and by initialize()" % target)
+    # initialize() with a Python float / int for the RAW parameter ("value can take the form of a tensor, a float, or an int"): the
+    # constrained value then reads transform(raw)
+    m5 = make()
+    raw_name5 = [n for n, _ in m5.named_parameters() if n.endswith("raw_" + attr)][0]
+    ok5, detail5 = True, ""
+    try:
+        for rv in (0.25, -1):
+            m5.initialize(**{raw_name5: rv})
+            owner5 = m5
+            for part in raw_name5.split(".")[:-1]:
+                owner5 = getattr(owner5, part)
+            cons5 = getattr(owner5, "raw_" + attr + "_constraint")
+            want5 = cons5.transform(torch.full_like(dict(m5.named_parameters())[raw_name5], float(rv)))
+            ok5 = ok5 and bool(torch.allclose(getattr(m5, attr).reshape(-1), want5.reshape(-1), rtol=1e-9, atol=1e-12))
+    except Exception as e:
+        ok5, detail5 = False, "%s: %s" % (type(e).__name__, e)
+    S.check_concrete(ok5, "%s: initialize(%s=<Python float / int>) sets the raw parameter" % (target, raw_name5), detail5)
     # out-of-bounds assignments are rejected (concrete witnesses on both sides of each bound)
     m2 = make()
     bad = [lower - 0.05] + ([hi + 0.5] if hi is not None else [])
